@@ -18,11 +18,14 @@ Lemma handler_for_unfold pk name :
   match set_handler pk name with Some h => Some h | None =>
   match zset_handler name with Some h => Some h | None =>
   match generic_handler name with Some h => Some h | None =>
-  string_handler name end end end end end.
+  match string_handler name with Some h => Some h | None =>
+  match CmdZRand.zrand_handler CmdZRand.default_zpick name with Some h => Some h | None =>
+  CmdKeyspace.keyspace_handler CmdKeyspace.default_keysource name end end end end end end end.
 Proof.
   unfold handler_for, first_some. simpl.
   destruct (list_handler name), (hash_handler name), (set_handler pk name), (zset_handler name),
-    (generic_handler name), (string_handler name); reflexivity.
+    (generic_handler name), (string_handler name), (CmdZRand.zrand_handler CmdZRand.default_zpick name),
+    (CmdKeyspace.keyspace_handler CmdKeyspace.default_keysource name); reflexivity.
 Qed.
 
 Lemma tf_every_handler T pk name h argv :
@@ -34,7 +37,9 @@ Proof.
   destruct (set_handler pk name) eqn:E3; [injection Hh as <-; by eapply tf_set|].
   destruct (zset_handler name) eqn:E4; [injection Hh as <-; by eapply tf_zset|].
   destruct (generic_handler name) eqn:E5; [injection Hh as <-; by eapply tf_generic|].
-  by eapply tf_string.
+  destruct (string_handler name) eqn:E6; [injection Hh as <-; by eapply tf_string|].
+  destruct (CmdZRand.zrand_handler CmdZRand.default_zpick name) eqn:E7; [injection Hh as <-; by eapply tf_zrand|].
+  by eapply tf_keyspace.
 Qed.
 
 (** The random source only matters for SPOP and SRANDMEMBER. *)
@@ -55,7 +60,10 @@ Lemma handler_for_pick pk name :
 Proof. intros H1 H2. rewrite !handler_for_unfold. by rewrite (set_handler_pick pk ref_pick). Qed.
 
 (** * The decidable check *)
-Definition nondet_words : list string := ["expire"; "pexpire"; "ttl"; "pttl"; "spop"; "srandmember"].
+(** ZRANDMEMBER and RANDOMKEY draw from the random source of the process like SPOP and SRANDMEMBER: they
+    are refused too (they are read-category commands and are never replicated: [no_reader_syncs]). *)
+Definition nondet_words : list string :=
+  ["expire"; "pexpire"; "ttl"; "pttl"; "spop"; "srandmember"; "zrandmember"; "randomkey"].
 
 Definition entry_det_b (T : Z) (e : request) : bool :=
   match e with
@@ -180,7 +188,9 @@ Proof.
   destruct (set_handler pk name) eqn:E3; [injection Hh as <-; by eapply nf_set|].
   destruct (zset_handler name) eqn:E4; [injection Hh as <-; by eapply nf_zset|].
   destruct (generic_handler name) eqn:E5; [injection Hh as <-; by eapply nf_generic|].
-  by eapply nf_string.
+  destruct (string_handler name) eqn:E6; [injection Hh as <-; by eapply nf_string|].
+  destruct (CmdZRand.zrand_handler CmdZRand.default_zpick name) eqn:E7; [injection Hh as <-; by eapply nf_zrand|].
+  by eapply nf_keyspace.
 Qed.
 
 Theorem database_placement pk s d cmd rest d' :
@@ -211,16 +221,21 @@ Lemma every_mutator_syncs :
   /\ length (filter (fun r => may_mutate (cr_name r)) top_rows) = 55%nat.
 Proof. vm_compute. split; reflexivity. Qed.
 
-(** no command whose handler is proved read-only is replicated *)
+(** no command whose handler is proved read-only is replicated, except TOUCH: read category, Sync = true
+    (its business is the eviction cache), and in a cluster [updateKeysInCache] returns at once, so the
+    state machine of every node applies a command that runs no primitive ([Model/CmdKeyspace.v
+    handle_touch], [tf_keyspace]) *)
+Definition replicated_readers : list string := ["touch"].
 Lemma no_reader_syncs :
-  forallb (fun r => negb (smem (cr_name r) all_readonly_words) || negb (cr_sync r)) top_rows = true.
+  forallb (fun r => negb (smem (cr_name r) all_readonly_words) || negb (cr_sync r)
+                    || smem (cr_name r) replicated_readers) top_rows = true.
 Proof. vm_compute. reflexivity. Qed.
 
-(** the replicated commands the model does not cover (ACL, admin, pub/sub, TOUCH), by name *)
+(** the replicated commands the model does not cover (ACL, admin, pub/sub), by name *)
 Lemma sync_not_modelled :
   map comm_of (filter (fun r => cr_sync r && negb (modelled (cr_name r))) cmd_table)
   = ["acl|setuser"; "acl|deluser"; "acl|list"; "acl|load"; "acl|save"; "save"; "module|load"; "module|unload";
-     "touch"; "publish"].
+     "publish"].
 Proof. vm_compute. reflexivity. Qed.
 
 (** classification of every replicated, modelled command: deterministic for every argument vector,
@@ -233,7 +248,7 @@ Lemma sync_rows_classified :
   forallb (fun r => negb (cr_sync r && modelled (cr_name r))
                     || det_always (cr_name r) || smem (cr_name r) det_cond_words || smem (cr_name r) finding_words)
           top_rows = true
-  /\ length (filter (fun r => cr_sync r && modelled (cr_name r) && det_always (cr_name r)) top_rows) = 48%nat
+  /\ length (filter (fun r => cr_sync r && modelled (cr_name r) && det_always (cr_name r)) top_rows) = 49%nat
   /\ map cr_name (filter (fun r => cr_sync r && modelled (cr_name r) && negb (det_always (cr_name r))) top_rows)
      = ["set"; "expire"; "pexpire"; "expireat"; "pexpireat"; "getex"; "spop"].
 Proof. vm_compute. repeat split; reflexivity. Qed.
